@@ -14,11 +14,12 @@ from ..driver import Prop
 STOCK = {"onoff": ["b", False], "datetime": ["m"], "float": ["m"]}
 
 
-def custom_tok():
+def custom_tok(which="custom"):
     import pandas as pd
 
-    return {"onoff": ["b", True], "datetime": ["d", C.dt_ns(pd.Timestamp(R.CUSTOM["datetime"]))],
-            "float": ["n", C.canon_fbits(-1.0)]}
+    cu = R.CUSTOM if which == "custom" else R.CUSTOM0
+    return {"onoff": ["b", cu["onoff"]], "datetime": ["d", C.dt_ns(pd.Timestamp(cu["datetime"]))],
+            "float": ["n", C.canon_fbits(cu["float"])]}
 
 
 def inject_structure(rng, rows, exp):
@@ -49,7 +50,7 @@ class C13(Prop):
     id = "C13"
     coq_header = "From PdV.Corr Require Import Read."
     rule = ("table blocks with injected defects: illegal numeric / onoff / datetime cells (text and native), duplicated "
-            "column names, rows cut short; fixer configurations strict instance, lenient stock, lenient custom subclass, "
+            "column names, rows cut short; fixer configurations strict instance, lenient stock, lenient custom subclass, a second custom subclass with falsy replacements that returns a new list for short rows, "
             "class instead of instance; every 3rd case is a two-table stream sharing one fixer; expectation computed "
             "from the injected defect set; non-trivial = at least one defect; distinct = distinct (grid, configuration)")
     assumptions = [
@@ -65,7 +66,7 @@ class C13(Prop):
             rows, exp = S.gen_table_grid(rng, native=native, bad_rate=rng.choice([0.0, 0.15, 0.3]), header_noise=False)
             rows, dups, shorts = inject_structure(rng, rows, exp)
             case = {"rows": rows, "exp": exp, "dups": dups, "shorts": shorts,
-                    "fixer": ["strict", "lenient", "custom", "lenient", "strict_class", "lenient_class"][i % 6], "native": native}
+                    "fixer": ["strict", "lenient", "custom", "lenient", "strict_class", "lenient_class", "custom0"][i % 7], "native": native}
             if i % 12 == 9 and not exp["transposed"] and len(exp["cols"]) >= 2:
                 # counted defects followed by a direct ValueError (non-text unit cell): nothing of it may
                 # leak into the verdict on the next table
@@ -165,7 +166,7 @@ class C13(Prop):
         names = [c["name"] for c in t["cols"]]
         if len(set(names)) != len(names):
             fails.append(f"{tag}names: column names not unique {names}")
-        repl = custom_tok() if fixer == "custom" else STOCK
+        repl = custom_tok(fixer) if fixer in ("custom", "custom0") else STOCK
         bad = set(illegal)
         for j, (cg, ce) in enumerate(zip(t["cols"], exp["cols"])):
             k = exp["kinds"][j]
